@@ -21,7 +21,7 @@ def run_one(pid, patch):
         if p.returncode != 0:
             return "PATCH-FAILED " + p.stdout[-300:] + p.stderr[-300:]
         env = dict(os.environ, VERIF_REPO=d)
-        p = subprocess.run([os.path.join(ROOT, "check"), pid, "quick"], cwd=ROOT, env=env, capture_output=True, text=True)
+        p = subprocess.run([os.path.join(ROOT, "check"), pid, os.environ.get("SELFTEST_TIER", "quick")], cwd=ROOT, env=env, capture_output=True, text=True)
         viol = [l for l in p.stdout.splitlines() if l.startswith("VIOLATION") or l.startswith("detail")]
         return "rc=%d %s" % (p.returncode, " | ".join(v[:160] for v in viol))
     finally:
@@ -38,6 +38,9 @@ def main():
         m = json.load(open(mf))
         if m.get("expected_miss"):
             print("KNOWN-MISS %s %s" % (os.path.basename(os.path.dirname(mf)), m["expected_miss"]), flush=True)
+            continue
+        if m.get("selftest_tier") == "thorough" and not os.environ.get("SELFTEST_THOROUGH"):
+            print("THOROUGH-ONLY %s (caught by the thorough tier of %s; set SELFTEST_THOROUGH=1 to run it)" % (os.path.basename(os.path.dirname(mf)), m.get("detected_by")), flush=True)
             continue
         pids = m.get("detected_by") or [m.get("property")]
         if os.environ.get("SELFTEST_PRIMARY"):       # one run per mutant: the check of its own property if that catches it
